@@ -973,6 +973,17 @@ impl Translator {
                 {
                     // member function
                     self.translate_declaration(decl, field_name.node(), offset_table, mono, st);
+                } else if matches!(
+                    self.statics.resolution_map.get(&expr.id),
+                    Some(
+                        Declaration::Struct(..)
+                            | Declaration::Enum(..)
+                            | Declaration::Namespace(..)
+                            | Declaration::InterfaceDef(..)
+                            | Declaration::BuiltinType(..)
+                    )
+                ) {
+                    // a qualified type / namespace (e.g. the `q.Ty` of `q.Ty.make()`): not a value
                 } else {
                     let expr_ty = self.get_ty(mono, expr.node()).unwrap();
                     if expr_ty != SolvedType::Void {
